@@ -148,3 +148,16 @@ def regex_search(p, s):
 def iregexp_ok(p):
     from iregexp_check import check
     return check(p)
+
+
+def str_count(s, sub, a, b): return s.count(sub, a, b)
+def str_rfind(s, sub, a, b): return s.rfind(sub, a, b)
+def char(i): return chr(i)
+def codepoint(s): return ord(s)
+def int_str(i): return str(i)
+def func_id(f): return id(f)
+
+
+def canonical(s):
+    from jsonpath_rfc9535.serialize import canonical_string
+    return canonical_string(s)
